@@ -5,7 +5,8 @@ import json
 from harness.c05.engine import TABLES, STR_POOL, INT_POOL, FLOAT_POOL
 
 HOSTILE = ["it's", 'say "hi"', "back\\slash", "--c", "/*x*/", "#h", "a;b", "l1\nl2", "é✓", "''", "", " ", "%x_",
-           "a,b),(c", "x'),('y", "'); DROP TABLE t; --", "1,2", "NULL", "é中\U0001F600", "tab\there", "nul\x00z"]
+           "a,b),(c", "x'),('y", "'); DROP TABLE t; --", "1,2", "NULL", "é中\U0001F600", "tab\there", "nul\x00z",
+           "C:\\data\\", "\\", "\\\\", "it's\\", "{}", "{0}", "%s", "%", "100%", "%(a)s", "$1", ":a", "?"]
 JUDGED = ["SQLLiteQuery", "Query"]
 ALL_CLS = ["Query", "MySQLQuery", "VerticaQuery", "OracleQuery", "PostgreSQLQuery", "RedshiftQuery", "MSSQLQuery",
            "ClickHouseQuery", "SQLLiteQuery", "SnowflakeQuery"]
@@ -58,7 +59,7 @@ class G:
         if x < 0.6:
             return I(self.r.choice([0, 1, 2, 3, 7, 10, -1, 5]))
         if x < 0.9:
-            return Sv(self.r.choice(STR_POOL[:6] + (HOSTILE[:12] if self.r.random() < self.hostile else [])))
+            return Sv(self.r.choice(STR_POOL[:6] + ["C:\\data\\", "\\"] + (HOSTILE if self.r.random() < self.hostile else [])))
         return ["valf", repr(self.r.choice([1.5, -2.25, 3.0])), None]
 
     def expr(self, cols, d, hazard_ok=True):
@@ -96,7 +97,7 @@ class G:
         if x < 0.72:
             return ["not", self.crit(cols, d - 1), None]
         if x < 0.82:
-            return ["in", f, ["tuple", [self.lit() for _ in range(self.r.choice([1, 2, 3]))], None], self.r.random() < 0.3, None]
+            return ["in", f, ["tuple", [self.lit() for _ in range(self.r.choice([0, 0, 1, 2, 3]))], None], self.r.random() < 0.4, None]
         if x < 0.89:
             return ["between", f, I(self.r.choice([0, 1, 2])), I(self.r.choice([3, 7, 10])), None]
         if x < 0.95:
